@@ -1038,8 +1038,18 @@ def eval_group(case, variants, st, shrink_s=8.0, accept=True, den=True):
             st.divergence({'case': _strip(c), 'trace': o['trace'], 'exit': o['exit'], 'err': o['err'],
                            'matched': a.get('matched'), 'expected': a.get('expected')},
                           'K1: run (%s) is not a trace of the M1 model' % c['runner'])
+    # hypothesis NoFailDeliver of the denotation theorems (decidable on the case): no calc task that fails during its
+    # execution delivers values.  Where it does not hold, K2 / K2c are NOT applied (the denotation evaluated by the driver
+    # does not know these deliveries yet); K1 (the M1 model has them) and P still are.
+    nfd = True
+    if fam == 'A':
+        m0 = base.get('model') or {}
+        nfd = not any(m0.get('calcResFail') or [])
+        st.count('hyp_nofaildeliver:%s' % nfd)
+    if not nfd:
+        st.count('K2_K2c_not_applied_fail_delivery', len(runs))
     # K2: denotation (hypotheses: no calc_dep, acyclic = determined)
-    if ans is not None and fam == 'A':
+    if ans is not None and fam == 'A' and nfd:
         hyp = ans.get('nocalc') and ans.get('determined')
         st.count('hyp_nocalc_acyclic:%s' % bool(hyp))
         if hyp:
@@ -1052,7 +1062,7 @@ def eval_group(case, variants, st, shrink_s=8.0, accept=True, den=True):
                                    'reports': s['reports'], 'exit': o['exit'], 'complete': s['complete']},
                                   'K2: reports / closure / exit code of the %s run differ from the denotation' % c['runner'])
     # K2c: denotation with dynamic calc_dep edges (hypothesis: determined_c, decidable; C08_monitors_hold_dyn)
-    if ans is not None and fam == 'A' and 'determined_c' in ans:
+    if ans is not None and fam == 'A' and 'determined_c' in ans and nfd:
         kind = 'nocalc' if ans.get('nocalc') else 'calc'
         st.count('hyp_dyn_determined:%s:%s' % (kind, bool(ans.get('determined_c'))))
         if ans.get('determined_c'):
@@ -1591,7 +1601,9 @@ def gen_scale(rng, n_lo, n_hi):
     return {'fam': 'A', 'scale': shape, 'tasks': ts, 'sel': sel, 'cont': True, 'always': False, 'runner': 'serial', 'nproc': 0}
 
 
-A_KNOBS = {'n_max': 8, 'p_dup_sel': 0.0, 'p_cont': 0.6, 'weights': {'calc_dep': 9}}
+# p_calc_then_fail (runlib opt-in knob): a calc task whose first action returns the calc values and whose second action
+# fails -- doit delivers the values of the FAILED task (model: calcResFail / deliverF)
+A_KNOBS = {'n_max': 8, 'p_dup_sel': 0.0, 'p_cont': 0.6, 'weights': {'calc_dep': 9}, 'p_calc_then_fail': 0.3}
 
 
 def gen_variants(rng, case, kinds):
